@@ -183,19 +183,28 @@ theorem batchSFp_eq {p : RistrettoDalek.RPt} {R : Ed} (hR : ERep (toEPt p) R) :
 
 /-! ## Coset invariance of `Spec.Ristretto.encodeExt` on naturals -/
 
-/-- ENCODE on (arbitrary natural) extended coordinates denoting `Q` (in the even subgroup) and `Q + T4`, `T4 ∈ E[4]` -/
+/-- ENCODE on (arbitrary natural) extended coordinates denoting `Q` (with `(1−y²)x²y²` a square) and `Q + T4`,
+`T4 ∈ E[4]` -/
+theorem encodeExt_coset_sq {x y z t x' y' z' t' : Nat} {Q T4 : Ed}
+    (h : RepExt Q (x : Fp) (y : Fp) (z : Fp) (t : Fp))
+    (h' : RepExt (Q + T4) (x' : Fp) (y' : Fp) (z' : Fp) (t' : Fp))
+    (hT : 4 • T4 = 0) (hsq : IsSquare (encW Q.x Q.y)) :
+    Ristretto.encodeExt x' y' z' t' = Ristretto.encodeExt x y z t := by
+  rw [encodeExt_unfold, encodeExt_unfold]
+  have : sEncS x' y' z' t' = sEncS x y z t := by
+    apply Bridge.eq_of_cast_eq (sEncS_lt ..) (sEncS_lt ..)
+    rw [cast_sEncS, cast_sEncS]
+    exact encS_coset ((isE4_iff T4).2 hT) rfl hsq h h'
+  rw [this]
+
+/-- the same for `Q` in the even subgroup -/
 theorem encodeExt_coset {x y z t x' y' z' t' : Nat} {Q T4 : Ed}
     (h : RepExt Q (x : Fp) (y : Fp) (z : Fp) (t : Fp))
     (h' : RepExt (Q + T4) (x' : Fp) (y' : Fp) (z' : Fp) (t' : Fp))
     (hT : 4 • T4 = 0) (heven : ∃ R : Ed, Q = 2 • R) :
     Ristretto.encodeExt x' y' z' t' = Ristretto.encodeExt x y z t := by
   obtain ⟨R, rfl⟩ := heven
-  rw [encodeExt_unfold, encodeExt_unfold]
-  have : sEncS x' y' z' t' = sEncS x y z t := by
-    apply Bridge.eq_of_cast_eq (sEncS_lt ..) (sEncS_lt ..)
-    rw [cast_sEncS, cast_sEncS]
-    exact encS_coset ((isE4_iff T4).2 hT) rfl (isSquare_encW_even R) h h'
-  rw [this]
+  exact encodeExt_coset_sq h h' hT (isSquare_encW_even R)
 
 theorem repExt_of_rep {p : Pt} {Q : Ed} (h : Rep p Q) :
     RepExt Q (p.x : Fp) (p.y : Fp) ((1 : Nat) : Fp) ((fmul p.x p.y : Nat) : Fp) := by
